@@ -91,3 +91,35 @@ Definition valid_debian (v : debian) : bool := is_some (db_epoch v).
 
 Definition debian_eqb (v w : debian) : bool :=
   optZ_eqb (db_epoch v) (db_epoch w) && bytes_eqb (db_upstream v) (db_upstream w) && bytes_eqb (db_revision v) (db_revision w).
+
+(* ------------------------------------------------------------------ the interleaved Go loop, literally *)
+(* compareDebianVersions as written: both strings are consumed in lock step.
+     for { if a == "" && b == "" { break }
+           ap, a = splitDebianNonDigitPrefix(a); bp, b = splitDebianNonDigitPrefix(b)
+           if ap != bp { for i := range max(len(ap), len(bp)) { weights of the i-th elements of Split(ap, "") / Split(bp, "")
+                                                                (default ""), return on the first difference } }
+           adp, a = splitDebianDigitPrefix(a); bdp, b = splitDebianDigitPrefix(b)
+           if diff := adp.Cmp(bdp); diff != 0 { return diff } }
+   DebianLoopProofs.v proves that this equals [deb_str_cmp] (tokenise each side, then compare). *)
+Fixpoint deb_loop (fuel : nat) (a b : bytes) : comparison :=
+  match fuel with
+  | O => Eq
+  | S f =>
+    if is_nil a && is_nil b then Eq
+    else
+      let (ap, a1) := span (fun c => negb (is_digit c)) a in
+      let (bp, b1) := span (fun c => negb (is_digit c)) b in
+      match (if bytes_eqb ap bp then Eq
+             else lexn gen_debian_empty_weight Z.compare (Nat.max (length ap) (length bp)) (deb_weights ap) (deb_weights bp)) with
+      | Eq =>
+        let (ad, a2) := span is_digit a1 in
+        let (bd, b2) := span is_digit b1 in
+        match Z.compare (Z.of_N (digits_val ad 0)) (Z.of_N (digits_val bd 0)) with
+        | Eq => deb_loop f a2 b2
+        | c => c
+        end
+      | c => c
+      end
+  end.
+
+Definition deb_loop_cmp (a b : bytes) : comparison := deb_loop (S (length a + length b)) a b.
